@@ -77,6 +77,9 @@ type Native struct {
 	Edges *[][2]Value
 	// generic payload
 	X map[string]Value
+	// lazily checked string (a regexp capture whose uniqueness is only
+	// established if the program actually uses it)
+	Force func() *Term
 }
 
 // SymFloat is a float64 of which only the class is known.
@@ -174,6 +177,10 @@ func toTerm(v Value) *Term {
 		return IntT(x)
 	case string:
 		return StrT(x)
+	case *Native:
+		if x.Force != nil {
+			return x.Force()
+		}
 	}
 	panic(fmt.Sprintf("toTerm: not a scalar: %T %v", v, v))
 }
@@ -349,4 +356,12 @@ func describe(v Value) string {
 		return "func:" + x.Name()
 	}
 	return fmt.Sprintf("%v", v)
+}
+
+// forceLazy replaces a lazily decomposed capture by its string term.
+func forceLazy(v Value) Value {
+	if n, ok := v.(*Native); ok && n.Force != nil {
+		return fromTerm(n.Force())
+	}
+	return v
 }
